@@ -12,10 +12,40 @@ package database
 // Index construction: the command list itself is never touched (functional contracts: C03).
 //@ func (*Database).BuildUniversalIndex
 //@   modifies db.*
-//@   ensures[index.keeps-commands] db.Commands == old(db.Commands)
+//@   ensures[index.keeps-commands] db.Commands == old(db.Commands) && db.tfidf == old(db.tfidf) && db.cmdIndex == old(db.cmdIndex) && db.embeddingIndex == old(db.embeddingIndex)
+//@   ensures[index.ok] idxOK(db)
+// postings lists of different terms never share a backing array (each grows by append from nil)
+//@ pure func postingsSep(idx *universalIndex) bool = (forall t string :: (t in idx.postings) ==> fresh(idx.postings[t]) && allocated(idx.postings[t])) && (forall t1, t2 string :: t1 != t2 && (t1 in idx.postings) && (t2 in idx.postings) && cap(idx.postings[t1]) > 0 && cap(idx.postings[t2]) > 0 ==> base(idx.postings[t1]) != base(idx.postings[t2]))
+//@ pure func postingsInRange(idx *universalIndex) bool = forall t string, j int :: (t in idx.postings) && 0 <= j && j < len(idx.postings[t]) ==> 0 <= idx.postings[t][j].docID && idx.postings[t][j].docID < idx.N
+//@ pure func idxShape(db *Database, idx *universalIndex, perDocTFs []map[string]fieldTF) bool = idx != nil && fresh(idx) && idx.N == len(db.Commands) && idx.N >= 1 && len(idx.docLens) == idx.N && fresh(idx.docLens) && len(perDocTFs) == idx.N && fresh(perDocTFs) && idx.postings != nil && fresh(idx.postings) && idx.df != nil && fresh(idx.df) && paramsOK(idx.params) && db.Commands == old(db.Commands) && db.tfidf == old(db.tfidf) && db.cmdIndex == old(db.cmdIndex) && db.embeddingIndex == old(db.embeddingIndex)
+//@ pure func lensOK(idx *universalIndex, n int) bool = forall d int :: 0 <= d && d < n ==> idx.docLens[d].cmd >= 0 && idx.docLens[d].desc >= 0 && idx.docLens[d].keys >= 0 && idx.docLens[d].tags >= 0
+
+//@ func indexCommand
+//@   requires cmd != nil
+//@   modifies nothing
+//@   ensures[index.command] uniqueLens.cmd >= 0 && uniqueLens.desc >= 0 && uniqueLens.keys >= 0 && uniqueLens.tags >= 0 && fresh(termFreqs)
+
+//@ func (*Database).BuildUniversalIndex
+//@ loop 1
+//@   invariant idxShape(db, idx, perDocTFs) && lensOK(idx, $i) && len(idx.postings) == 0 && (forall t string :: 0 <= idx.df[t] && idx.df[t] <= $i)
+//@ loop 2
+//@   invariant idxShape(db, idx, perDocTFs) && lensOK(idx, i + 1) && len(idx.postings) == 0 && 0 <= i && i < idx.N
+//@   invariant forall t string :: 0 <= idx.df[t] && idx.df[t] <= i + 1 && (!(t in $visited) ==> idx.df[t] <= i)
+//@ loop 3
+//@   invariant idxShape(db, idx, perDocTFs)
+//@ loop 4
+//@   invariant idxShape(db, idx, perDocTFs) && lensOK(idx, idx.N) && (forall t string :: 0 <= idx.df[t] && idx.df[t] <= idx.N) && postingsSep(idx) && postingsInRange(idx)
+//@ loop 5
+//@   invariant idxShape(db, idx, perDocTFs) && lensOK(idx, idx.N) && (forall t string :: 0 <= idx.df[t] && idx.df[t] <= idx.N) && postingsSep(idx) && postingsInRange(idx) && 0 <= docID && docID < idx.N
+
 //@ func (*Database).buildTFIDFSearcher
 //@   modifies db.*
-//@   ensures[tfidf.keeps-commands] db.Commands == old(db.Commands) && db.uIndex == old(db.uIndex)
+//@   ensures[tfidf.keeps-commands] db.Commands == old(db.Commands) && db.uIndex == old(db.uIndex) && db.embeddingIndex == old(db.embeddingIndex)
+//@   ensures[tfidf.ok] (db.tfidf != nil ==> nlp.wfTFIDF(db.tfidf)) && cmdIndexOK(db)
+//@ loop 1
+//@   invariant len(cmds) == len(db.Commands) && fresh(cmds)
+//@ loop 2
+//@   invariant db.cmdIndex != nil && fresh(db.cmdIndex) && (forall c *Command :: (c in db.cmdIndex) ==> db.cmdIndex[c] >= 0) && db.Commands == old(db.Commands) && db.uIndex == old(db.uIndex) && db.embeddingIndex == old(db.embeddingIndex) && db.tfidf != nil && nlp.wfTFIDF(db.tfidf)
 
 //@ func LoadDatabase
 //@   modifies nothing
@@ -24,6 +54,7 @@ package database
 //@   ensures[C15.load-missing] fileMissing(filename) ==> result1 != nil && errorsIs(result1, fs.ErrNotExist) && istype(result1, *errors.AppError) && astype(result1, *errors.AppError) != nil && astype(result1, *errors.AppError).Cause != nil && os.IsNotExist(astype(result1, *errors.AppError).Cause)
 //@   ensures[C15.load-perm] filePermDenied(filename) ==> result1 != nil && errorsIs(result1, fs.ErrPermission)
 //@   trusted-ensures[C15.load-stable] (result1 == nil) <==> loadsOK(filename)
+//@   ensures[C01.load-inv] result1 == nil ==> dbInv(result0)
 
 //@ func LoadDatabaseWithPersonal
 //@   modifies nothing
@@ -33,3 +64,232 @@ package database
 //@   ensures[C15.lwp-main-perm] filePermDenied(mainDBPath) ==> result1 != nil && errorsIs(result1, fs.ErrPermission)
 //@   ensures[C15.lwp-real] loadsOK(mainDBPath) && (loadsOK(personalDBPath) || fileMissing(personalDBPath)) ==> result1 == nil
 //@   ensures[C15.lwp-main-fails] !loadsOK(mainDBPath) ==> result1 != nil
+//@   ensures[C01.lwp-inv] result1 == nil ==> dbInv(result0)
+
+// ---------------------------------------------------------------------------
+// Search pipeline vocabulary (C01, C04, C07, C10, C13)
+
+//@ pure func inDB(db *Database, c *Command) bool = c != nil && base(c) == base(db.Commands) && offset(c) >= offset(db.Commands) && offset(c) < offset(db.Commands) + len(db.Commands)
+//@ pure func cmdIdx(db *Database, c *Command) int = offset(c) - offset(db.Commands)
+//@ pure func sortedDesc(r []SearchResult) bool = forall i, j int :: 0 <= i && i < j && j < len(r) ==> r[i].Score >= r[j].Score
+//@ pure func distinctCmds(r []SearchResult) bool = forall i, j int :: 0 <= i && i < j && j < len(r) ==> r[i].Command != r[j].Command
+//@ pure func allInDB(db *Database, r []SearchResult) bool = forall k int :: 0 <= k && k < len(r) ==> inDB(db, r[k].Command)
+//@ pure func nonneg(r []SearchResult) bool = forall k int :: 0 <= k && k < len(r) ==> r[k].Score >= 0.0
+//@ pure func effLimit(l int) int = l > 0 ? l : 10
+
+// Filters. The three predicates are the real functions (declared pure: a function of their
+// arguments and of the immutable command list); their tables are the mechanism, not re-specified.
+//@ func isPlatformCompatible
+//@   pure
+//@ func isCrossPlatformTool
+//@   pure
+//@ func isPipelineCommand
+//@   pure
+//@ func getCurrentPlatform
+//@   pure
+//@ pure func platOK(c *Command, o SearchOptions) bool = o.AllPlatforms || len(c.Platform) == 0 || isPlatformCompatible(c.Platform, getCurrentPlatform()) || isCrossPlatformTool(c.Command)
+//@ pure func pipeOK(c *Command, o SearchOptions) bool = !o.PipelineOnly || isPipelineCommand(c)
+//@ pure func gatesOK(r []SearchResult, o SearchOptions) bool = forall k int :: 0 <= k && k < len(r) ==> platOK(r[k].Command, o) && pipeOK(r[k].Command, o)
+
+// Index well-formedness as far as safety and the sign of scores need it (exact content: C03).
+//@ pure func fieldsOK(f docLensF) bool = 0.0 <= f.cmd && f.cmd <= 1.0 && 0.0 <= f.desc && f.desc <= 1.0 && 0.0 <= f.keys && f.keys <= 1.0 && 0.0 <= f.tags && f.tags <= 1.0
+//@ pure func weightsOK(f docLensF) bool = f.cmd > 0.0 && f.desc > 0.0 && f.keys > 0.0 && f.tags > 0.0
+//@ pure func paramsOK(p bm25fParams) bool = p.k1 > 0.0 && p.minIDF >= 0.0 && fieldsOK(p.b) && weightsOK(p.w)
+//@ pure func idxOK2(db *Database, idx *universalIndex) bool = idx != nil && idx.N == len(db.Commands) && len(idx.docLens) == idx.N && idx.postings != nil && idx.df != nil && paramsOK(idx.params) && (forall t string :: 0 <= idx.df[t] && idx.df[t] <= idx.N) && (forall d int :: 0 <= d && d < len(idx.docLens) ==> idx.docLens[d].cmd >= 0 && idx.docLens[d].desc >= 0 && idx.docLens[d].keys >= 0 && idx.docLens[d].tags >= 0) && (forall t string, j int :: (t in idx.postings) && 0 <= j && j < len(idx.postings[t]) ==> 0 <= idx.postings[t][j].docID && idx.postings[t][j].docID < idx.N)
+//@ pure func idxOK(db *Database) bool = idxOK2(db, db.uIndex)
+
+//@ func bm25IDF
+//@   pure
+//@   ensures[C01.idf-nonneg] 0 <= df && df <= n ==> result >= 0.0
+
+//@ func (*universalIndex).fieldBM25
+//@   requires idx.params.k1 > 0.0
+//@   ensures[C01.field-nonneg] tf > 0.0 && dl >= 0.0 && w > 0.0 && 0.0 <= b && b <= 1.0 ==> result >= 0.0
+
+//@ func (*universalIndex).termBM25F
+//@   requires paramsOK(idx.params) && 0 <= docID && docID < len(idx.docLens)
+//@   requires idx.docLens[docID].cmd >= 0 && idx.docLens[docID].desc >= 0 && idx.docLens[docID].keys >= 0 && idx.docLens[docID].tags >= 0
+//@   ensures[C01.term-nonneg] result >= 0.0
+
+// scoresOK: every scored document is a real, filter-eligible command with a non-negative score.
+//@ pure func scoresOK(db *Database, scores map[int]float64, o SearchOptions) bool = scores != nil && (forall d int :: (d in scores) ==> 0 <= d && d < len(db.Commands) && scores[d] >= 0.0 && platOK(&db.Commands[d], o) && pipeOK(&db.Commands[d], o))
+
+//@ func (*Database).processPostingsForTerm
+//@   requires idxOK2(db, idx) && idf >= 0.0 && boost > 0.0 && currentPlatform == getCurrentPlatform()
+//@   requires forall j int :: 0 <= j && j < len(postings) ==> 0 <= postings[j].docID && postings[j].docID < idx.N
+//@   requires scoresOK(db, scores, options)
+//@   modifies scores[*]
+//@   ensures[C01.postings-scores-ok] scoresOK(db, scores, options)
+//@   ensures[C13.postings-keeps-keys] forall d int :: old(d in scores) ==> (d in scores)
+//@ loop 1
+//@   invariant scoresOK(db, scores, options)
+//@   invariant forall d int :: old(d in scores) ==> (d in scores)
+
+//@ func (*Database).calculateInitialScores
+//@   requires idxOK(db)
+//@   modifies nothing
+//@   ensures[C01.initial-scores-ok] fresh(result) && scoresOK(db, result, options)
+//@ loop 1
+//@   invariant termBoost != nil && fresh(termBoost) && scores != nil && fresh(scores) && len(scores) == 0
+//@ loop 2
+//@   invariant termBoost != nil && fresh(termBoost) && scores != nil && fresh(scores) && len(scores) == 0
+//@ loop 3
+//@   invariant termBoost != nil && fresh(termBoost) && scores != nil && fresh(scores) && len(scores) == 0
+//@ loop 4
+//@   invariant termBoost != nil && fresh(termBoost) && fresh(scores) && scoresOK(db, scores, options) && scores != termBoost
+
+// Multiplicative boosts are strictly positive (they re-rank, never flip a sign).
+//@ func applyIntentBoost
+//@   modifies nothing
+//@   ensures[C01.intent-boost-pos] result > 0.0
+//@ func applyActionBoosts
+//@   modifies nothing
+//@   ensures[C01.action-boost-pos] result > 0.0
+//@ loop 1
+//@   invariant boost > 0.0
+//@ func applyTargetBoosts
+//@   modifies nothing
+//@   ensures[C01.target-boost-pos] result > 0.0
+//@ loop 1
+//@   invariant boost > 0.0
+//@ func calculateIntentBoost
+//@   requires cmd != nil && pq != nil
+//@   modifies nothing
+//@   ensures[C01.intent-pos] result > 0.0
+
+// resultsOK: real entries, no duplicates, non-negative scores.
+//@ pure func resultsOK(db *Database, r []SearchResult) bool = allInDB(db, r) && distinctCmds(r) && nonneg(r)
+
+//@ func (*Database).collectResults
+//@   requires scores != nil && (forall d int :: (d in scores) ==> 0 <= d && d < len(db.Commands) && scores[d] >= 0.0)
+//@   modifies nothing
+//@   ensures[C01.collect-ok] fresh(result) && len(result) == len(scores) && resultsOK(db, result)
+//@   ensures[C04.collect-from-scores] forall k int :: 0 <= k && k < len(result) ==> (cmdIdx(db, result[k].Command) in scores)
+//@ loop 1
+//@   invariant fresh(results) && len(results) == $n
+//@   invariant forall k int :: 0 <= k && k < len(results) ==> inDB(db, results[k].Command) && results[k].Score >= 0.0 && (cmdIdx(db, results[k].Command) in scores) && (cmdIdx(db, results[k].Command) in $visited)
+//@   invariant distinctCmds(results)
+
+// ---------------------------------------------------------------------------
+// Post-scoring stages. The three stage functions are verified inlined into
+// applyPostScoringBoosts (opt inline): their permutations are then visible where the filter
+// options are in scope; only their loop invariants are stated here.
+
+//@ func calcHintBoost
+//@   modifies nothing
+//@   ensures[C01.hint-boost] result == 0.0 || result == boostVal
+//@ func calcTermBoost
+//@   modifies nothing
+//@   ensures[C01.term-boost] result == 0.0 || result == boostVal
+//@ func calcContextBoost
+//@   modifies nothing
+//@   ensures[C01.context-boost] result == 0.0 || result == boostVal
+//@ func getIntentBoost
+//@   modifies nothing
+//@   ensures[C01.intent-add-boost] result == 0.0 || result == 1.5
+//@ func (*Database).calculateBoostForCommand
+//@   requires cmd != nil
+//@   modifies nothing
+//@   ensures[C01.cascade-factor] result >= 1.0
+//@ func (*Database).buildBoostContext
+//@   requires pq != nil
+//@   modifies nothing
+
+// eligible(c) is declared only: each stage is proved to carry ANY predicate on commands from its
+// input to its output (it only permutes, truncates and re-scores); SearchUniversal defines it
+// as its own filter predicate (platOK && pipeOK for its options).
+//@ pure func eligible(c *Command) bool
+//@ pure func elig(r []SearchResult) bool = forall k int :: 0 <= k && k < len(r) ==> eligible(r[k].Command)
+
+//@ func (*Database).rerankWithNLP
+//@   requires db.tfidf != nil && nlp.wfTFIDF(db.tfidf) && resultsOK(db, results) && elig(results)
+//@   modifies results[*]
+//@   ensures[C01.rerank-ok] resultsOK(db, result) && sortedDesc(result) && elig(result)
+//@   ensures[C07.rerank-nonempty] len(result) <= len(results) && (len(results) > 0 ==> len(result) > 0)
+//@   ensures[C01.rerank-prefix-view] base(result) == base(results) && offset(result) == offset(results) && cap(result) <= cap(results)
+//@ loop 1
+//@   invariant simByIdx != nil && fresh(simByIdx) && (forall i int :: (i in simByIdx) ==> simByIdx[i] > 0.0)
+//@ loop 2
+//@   invariant forall k int :: 0 <= k && k < len(topK) ==> topK[k].Command == old(results[k].Command) && topK[k].Score >= old(results[k].Score)
+
+//@ func (*Database).cascadingBoost
+//@   requires resultsOK(db, results) && elig(results) && sortedDesc(results)
+//@   modifies results[*]
+//@   ensures[C01.cascade-ok] resultsOK(db, result) && sortedDesc(result) && elig(result) && result == results
+//@ loop 1
+//@   invariant forall k int :: 0 <= k && k < len(results) ==> results[k].Command == old(results[k].Command) && results[k].Score >= 0.0
+
+//@ pure func cmdIndexOK(db *Database) bool = forall c *Command :: (c in db.cmdIndex) ==> db.cmdIndex[c] >= 0
+//@ func (*Database).applySemanticBoost
+//@   requires resultsOK(db, results) && elig(results) && sortedDesc(results) && cmdIndexOK(db)
+//@   modifies results[*]
+//@   ensures[C19.semantic-ok] resultsOK(db, result) && sortedDesc(result) && elig(result) && result == results
+//@ loop 1
+//@   invariant cmdToIdx != nil && fresh(cmdToIdx) && (forall c *Command :: (c in cmdToIdx) ==> cmdToIdx[c] >= 0)
+//@ loop 2
+//@   invariant forall k int :: 0 <= k && k < len(results) ==> results[k].Command == old(results[k].Command) && results[k].Score >= 0.0
+
+//@ func (*Database).applyPostScoringBoosts
+//@   requires resultsOK(db, results) && sortedDesc(results) && elig(results)
+//@   requires (db.tfidf != nil ==> nlp.wfTFIDF(db.tfidf)) && cmdIndexOK(db)
+//@   modifies results[*]
+//@   ensures[C01.post-ok] resultsOK(db, result) && sortedDesc(result) && elig(result)
+//@   ensures[C07.post-nonempty] len(result) <= len(results) && (len(results) > 0 ==> len(result) > 0)
+
+// ---------------------------------------------------------------------------
+// Typo fallback
+
+//@ pure func normFuzzy(raw int) float64 = min(1.0, max(0.0, real(raw + 100) / 100.0))
+
+//@ func (*Database).performFuzzySearch
+//@   modifies nothing
+//@   ensures[C01.fuzzy-ok] fresh(result) && resultsOK(db, result) && sortedDesc(result)
+//@   ensures[C01.fuzzy-bound] 0 <= options.Limit && options.Limit <= 4611686018427387903 ==> len(result) <= 2 * options.Limit
+//@   ensures[C01.fuzzy-score-range] forall k int :: 0 <= k && k < len(result) ==> 0.0 <= result[k].Score && result[k].Score <= 1.0
+//@   ensures[C04.fuzzy-gates] gatesOK(result, options)
+//@   ensures[C07.fuzzy-threshold] options.FuzzyThreshold != 0 ==> (forall k int :: 0 <= k && k < len(result) ==> result[k].Score >= normFuzzy(options.FuzzyThreshold))
+//@ loop 1
+//@   invariant len(targets) == len(db.Commands) && fresh(targets)
+//@ loop 2
+//@   invariant fresh(results) && len(results) <= $i && len(targets) == len(db.Commands)
+//@   invariant 0 <= options.Limit && options.Limit <= 4611686018427387903 ==> $i <= 2 * options.Limit
+//@   invariant resultsOK(db, results) && sortedDesc(results) && gatesOK(results, options)
+//@   invariant forall k, j int :: 0 <= k && k < len(results) && $i <= j && j < len(matches) ==> cmdIdx(db, results[k].Command) != matches[j].Index && results[k].Score >= normFuzzy(matches[j].Score)
+//@   invariant forall k int :: 0 <= k && k < len(results) ==> results[k].Score <= 1.0 && (options.FuzzyThreshold != 0 ==> results[k].Score >= normFuzzy(options.FuzzyThreshold))
+
+// ---------------------------------------------------------------------------
+// SearchUniversal
+
+//@ func normalizeAndTokenize
+//@   modifies nothing
+//@   ensures[C01.tokens-fresh] fresh(result)
+//@ func (*Database).enhanceQueryWithNLP
+//@   modifies terms[*]
+//@   ensures[C01.enhance] pq != nil && fresh(pq) && len(enhancedTerms) >= len(terms) && (fresh(terms) ==> fresh(enhancedTerms))
+//@ loop 1
+//@   invariant len(terms) >= len(old(terms)) && ((base(terms) == base(old(terms)) && offset(terms) == offset(old(terms)) && cap(terms) == cap(old(terms))) || fresh(terms))
+//@ loop 2
+//@   invariant len(terms) >= len(old(terms)) && ((base(terms) == base(old(terms)) && offset(terms) == offset(old(terms)) && cap(terms) == cap(old(terms))) || fresh(terms))
+//@ func (*Database).filterAndSortTerms
+//@   opt inline yes
+//@ loop 3
+//@   invariant 0 <= i
+//@ func (*Database).selectTopTerms
+//@   modifies nothing
+//@   ensures[C01.select-terms] result == terms || fresh(result)
+
+// dbInv: what every Database built by the loaders satisfies (the index, when it matches the
+// command list in size, was built by BuildUniversalIndex; the re-ranker is well-formed).
+//@ pure func dbInv(db *Database) bool = (db.uIndex != nil && db.uIndex.N == len(db.Commands) ==> idxOK(db)) && (db.tfidf != nil ==> nlp.wfTFIDF(db.tfidf)) && cmdIndexOK(db)
+
+//@ func (*Database).SearchUniversal
+//@   requires dbInv(db)
+//@   defines forall c *Command :: eligible(c) <==> (platOK(c, options) && pipeOK(c, options))
+//@   modifies db.*
+//@   ensures[C01.len] len(result) <= effLimit(options.Limit)
+//@   ensures[C01.in-db] allInDB(db, result)
+//@   ensures[C01.distinct] distinctCmds(result)
+//@   ensures[C01.nonneg] nonneg(result)
+//@   ensures[C01.sorted] sortedDesc(result)
+//@   ensures[C04.gates] gatesOK(result, options)
+//@   ensures[C01.keeps-db] db.Commands == old(db.Commands) && dbInv(db)
